@@ -360,7 +360,40 @@ func run(c vrt.Case) vrt.Obs {
 				})
 			}
 		}
-		o.Sample = map[string]any{"kind": "optional", "masks": "0..15 (bit0 position, bit1 speed, bit2 course, bit3 comment)", "repetitions": 50}
+		// comment sweep: every length 1..100 in ASCII, in two-byte (Latin-1 representable) characters and mixed,
+		// with and without a position: the COMMENT line is the comment, whatever its length in bytes or runes
+		for k := 1; k <= 100; k++ {
+			for ui, unit := range []string{"a", "\u00e5", "a\u00f8", "\u00e6\u00f8\u00e5 ", "x/-:. "} {
+				for _, withPos := range []bool{false, true} {
+					o.Evals++
+					var pr catalog.PosReport
+					pr.Date = date
+					lat, lon := -33.5+float64(k)/100, 70.25
+					if withPos {
+						pr.Lat, pr.Lon = &lat, &lon
+					}
+					pr.Comment = strings.TrimSpace(string([]rune(strings.Repeat(unit, k))[:k]))
+					if pr.Comment == "" {
+						continue
+					}
+					vrt.Guard(&o, func() {
+						lines, body, ok := bodyLines(&o, pr)
+						if !ok {
+							return
+						}
+						if cm := lines["COMMENT"]; len(cm) != 1 || cm[0] != pr.Comment {
+							o.Violate("comment-line", "COMMENT line %q for a comment of %d characters / %d bytes (%q...); body %q", cm, k, len(pr.Comment), pr.Comment[:min(len(pr.Comment), 12)], body)
+						}
+						if (len(lines["LATITUDE"]) == 1) != withPos || (len(lines["LONGITUDE"]) == 1) != withPos {
+							o.Violate("optional-line", "comment sweep: position lines do not match position set=%v; body %q", withPos, body)
+						}
+						o.Count("comment_sweep_checked", 1)
+						o.Sig("cmt %d %d %v", k, ui, withPos)
+					})
+				}
+			}
+		}
+		o.Sample = map[string]any{"kind": "optional", "masks": "0..15 (bit0 position, bit1 speed, bit2 course, bit3 comment)", "repetitions": 50, "comment_sweep": "lengths 1..100 x 5 alphabets x with/without position"}
 	}
 	return o
 }
